@@ -58,23 +58,24 @@ class WildGen:
             numeric_args=True, defaults=True, pair=True, includes=True, fwd=True, enums=True,
             variables=True, operators=True, dunders=True, templated_types=True, inst_templated=True,
             lower_inst_names=True,                           # lower-case names with repeated first letter (D4, repaired)
-            unsigned_char_in_inst=False,                     # D23: blank in instantiated names
+            unsigned_char_in_inst=True,                      # D23 (repaired): blank in instantiated names
             std_pair=True, member_templates=True, bases=True, class_enums=True,
             # --- template-parameter occurrences inside member types (TemplGen)
             param_use=0.0,             # probability that a type position mentions a parameter in scope
-            param_depth=1,             # deepest template-argument depth at which a parameter may occur (D1 beyond 1)
+            param_depth=9,             # deepest template-argument depth at which a parameter may occur (D1, repaired)
             scoped=True,               # T::Value at depth 0
-            scoped_deep=False,         # T::Value inside template arguments (not substituted by the tool)
+            scoped_deep=True,          # T::Value inside template arguments (D45, repaired)
             scoped_substring=True,     # scoped name containing the parameter's spelling (T::Type) (D2, repaired)
-            scoped_templated=False,    # scoped use of a parameter bound to a templated concrete type
-            this_use=0.0, this_in_args=False,   # D3: vector<This>
-            this_in_base=False,        # D38: class X : B<This>
+            scoped_templated=True,     # scoped use of a parameter bound to a templated concrete type (D46, repaired)
+            this_use=0.0, this_in_args=True,    # D3 (repaired): vector<This>
+            this_in_base=True,         # D38 (repaired): class X : B<This>
             func_templated_inst=True,  # function template instantiated with a templated argument (D37, repaired)
             near_miss=True,            # identifiers that contain a parameter's spelling
             dunder_param_args=True,    # dunder-method arguments mention template parameters (D39, repaired)
             multiline_defaults=True,   # default values containing a line break (the line-oriented MATLAB extractors of
                                        # the harness cannot read routines that contain them: switched off there)
             special_names=0.0,         # python keywords / ipython names / print / serialize as member names
+            reopen_ns=0.0,             # probability that a namespace is written as two blocks (D6, repaired)
         )
         f.update(features)
         self.f = f
@@ -143,7 +144,7 @@ class WildGen:
             if r.random() < 0.5:
                 if depth == 0 or f['this_in_args']:
                     return S.T('This', (), (), const, marker)
-            elif depth <= 1:
+            else:
                 # documented spellings: This::X at global scope, ns::This::X inside ns
                 return S.T(r.choice(['Value', 'Verbosity', 'Sub']), tuple(self.ns_path) + ('This',), (),
                            const, marker)
@@ -163,7 +164,8 @@ class WildGen:
         if self.f['numeric_args'] and r.random() < 0.12:
             return S.T(str(r.randint(0, 99)))
         if r.random() < 0.35:
-            pool = [b for b in CONCRETE_BASIC if self.f['unsigned_char_in_inst'] or b != 'unsigned char']
+            # `unsigned char` is no Typename: the grammar takes it only as a template argument of an argument
+            pool = [b for b in CONCRETE_BASIC if (self.f['unsigned_char_in_inst'] and depth > 0) or b != 'unsigned char']
             return S.T(r.choice(pool))
         if self.f['lower_inst_names'] and r.random() < 0.15:
             # lower-case type names, some with a repeated first letter
@@ -375,8 +377,31 @@ class WildGen:
         self.ns_path = saved_path
         return S.Namespace(name, items)
 
+    def reopen(self, items):
+        """split some namespaces into two blocks of the same name (a namespace that is opened again)."""
+        r = self.r
+        out, later = [], []
+        for it in items:
+            if it.k != 'Namespace':
+                out.append(it)
+                continue
+            sub = self.reopen(it.items)
+            if len(sub) >= 2 and r.random() < self.f['reopen_ns']:
+                cut = r.randint(1, len(sub) - 1)
+                out.append(S.Namespace(it.name, tuple(sub[:cut])))
+                tail = S.Namespace(it.name, tuple(sub[cut:]))
+                if r.random() < 0.5:
+                    out.append(tail)          # directly behind the first block
+                else:
+                    later.append(tail)        # behind the remaining items of the enclosing scope
+            else:
+                out.append(S.Namespace(it.name, tuple(sub)))
+        return out + later
+
     def module(self):
         items = [self.item(0) for _ in range(self.r.randint(1, self.k.items))]
+        if self.f['reopen_ns']:
+            items = self.reopen(items)
         mod = S.Module(tuple(items))
         if self.f['typedefs']:
             mod = add_typedefs(mod, self)
@@ -385,7 +410,7 @@ class WildGen:
 
 def inst_name(t):
     """The tool's naming rule for one instantiation argument (Typename.instantiated_name)."""
-    return t.name + ''.join(inst_name(a) for a in t.args)
+    return t.name.replace(' ', '') + ''.join(inst_name(a) for a in t.args)
 
 
 def _d4_sensitive(name):
@@ -425,6 +450,10 @@ def add_typedefs(mod, g, flagged_scopes=False):
             else:
                 out.append(it)
         cands = local + ([] if g.f.get('typedef_same_ns') else enclosing_templates)
+        if g.f.get('typedef_any_ns', True) and not g.f.get('typedef_same_ns'):
+            # templates of any other namespace, declared before or after (D5, repaired: the tree used to be
+            # searched while partly instantiated)
+            cands = cands + [c for c in everywhere if c[0] == 'class' and c not in cands]
         n_td = r.choice([0, 0, 1, 2]) if cands or g.f['fwd'] else 0
         for _ in range(n_td):
             if cands and r.random() < 0.8:
@@ -443,6 +472,17 @@ def add_typedefs(mod, g, flagged_scopes=False):
             out.insert(r.randint(0, len(out)), td)
         return out
 
+    everywhere = []
+
+    def collect(items, path):
+        for it in items:
+            if it.k == 'Class' and it.template:
+                everywhere.append(('class', path, it))
+            elif it.k == 'Func' and it.template:
+                everywhere.append(('func', path, it))
+            elif it.k == 'Namespace':
+                collect(it.items, path + (it.name,))
+    collect(mod.items, ())
     return S.Module(tuple(rec(mod.items, (), [])))
 
 
